@@ -42,7 +42,7 @@ Proof. reflexivity. Qed.
 
 Lemma qv_ext c s e1 e2 t : epoch_of e1 s = epoch_of e2 s -> qv c s e1 t = qv c s e2 t.
 Proof.
-  intro H. unfold qv, expired. destruct (t_scene t =? s) eqn:E; cbn [andb]; [|reflexivity].
+  intro H. unfold qv. rewrite !expired_ltb. destruct (t_scene t =? s) eqn:E; cbn [andb]; [|reflexivity].
   apply N.eqb_eq in E. rewrite E, H. reflexivity.
 Qed.
 
@@ -199,7 +199,7 @@ Section C04.
     cbn [Tracker.tstep snd]. rewrite view_auto_waste. unfold TrackerC04.view. cbn [epochs live set_epochs fst snd].
     rewrite epoch_of_set_same. f_equal.
     rewrite <- map_canon_filter by reflexivity. f_equal. rewrite filter_filter_and. apply filter_ext_in. intros t _.
-    unfold qv, alive_v, expired. destruct (t_scene t =? s) eqn:E; cbn [andb]; [|reflexivity].
+    unfold qv, alive_v. rewrite !expired_ltb. destruct (t_scene t =? s) eqn:E; cbn [andb]; [|reflexivity].
     apply N.eqb_eq in E. rewrite E, epoch_of_set_same.
     destruct (t_last t + max_idle c <? epoch_of (epochs st) s + n) eqn:E1; cbn [negb]; [symmetry; apply andb_false_r|].
     apply N.ltb_ge in E1. replace (t_last t + max_idle c <? epoch_of (epochs st) s) with false; [reflexivity|].
